@@ -1,1 +1,344 @@
-fn main() { println!("{}", divan::verif::fmt_duration(1234567)); }
+//! Engine L: loom exploration of the real thread pool, the real multi-threaded
+//! sample loop and the real per-thread allocation tally.
+//!
+//!   mc-loom --scenario '<json>' --side <file>
+//!
+//! One process explores one scenario (loom may abort the process after it
+//! reports a failure). Verdicts: exit 0 + `RESULT {..}` = every execution passed;
+//! otherwise the first unexpected panic message is in the side file and the
+//! driver classifies it (oracle:…, deadlock, causality violation,
+//! use-after-return, abort).
+
+#[path = "../../common/loopdrv.rs"]
+mod loopdrv;
+#[path = "../../common/oracle.rs"]
+mod oracle;
+
+use divan::verif::Pool;
+use divan_verif_rt::{live, log};
+use serde::Deserialize;
+use serde_json::json;
+use std::collections::HashSet;
+use std::sync::atomic::{AtomicBool, AtomicU64, AtomicUsize, Ordering::SeqCst};
+use std::sync::{Arc, Mutex};
+
+static ITERATIONS: AtomicU64 = AtomicU64::new(0);
+static TRANSITIONS: AtomicU64 = AtomicU64::new(0);
+static OUTCOMES: Mutex<Option<HashSet<u64>>> = Mutex::new(None);
+static SAMPLE: Mutex<Option<serde_json::Value>> = Mutex::new(None);
+
+fn outcome(h: u64) {
+    OUTCOMES.lock().unwrap().get_or_insert_with(HashSet::new).insert(h);
+}
+
+fn hash_of(s: &str) -> u64 {
+    use std::hash::{Hash, Hasher};
+    let mut h = std::collections::hash_map::DefaultHasher::new();
+    s.hash(&mut h);
+    h.finish()
+}
+
+#[derive(Deserialize, Clone, Debug)]
+struct Broadcast {
+    n: usize,
+    #[serde(default)]
+    panics: Vec<usize>,
+    #[serde(default)]
+    extend: bool,
+}
+
+#[derive(Deserialize, Clone, Debug)]
+#[serde(tag = "kind")]
+enum Scenario {
+    #[serde(rename = "pool")]
+    Pool { history: Vec<Broadcast>, pb: Option<usize>, prop: Option<String> },
+    #[serde(rename = "loop")]
+    Loop { case: loopdrv::LoopCase, pb: Option<usize>, prop: Option<String> },
+    #[serde(rename = "tally")]
+    Tally { threads: usize, ops: Vec<Vec<u8>>, pb: Option<usize> },
+    #[serde(rename = "shim")]
+    Shim { script: String, pb: Option<usize> },
+}
+
+struct SyncCell<T>(loom::cell::UnsafeCell<T>);
+unsafe impl<T> Sync for SyncCell<T> {}
+unsafe impl<T> Send for SyncCell<T> {}
+
+struct AliveGuard(Arc<AtomicBool>);
+impl Drop for AliveGuard {
+    fn drop(&mut self) {
+        self.0.store(false, SeqCst);
+    }
+}
+
+struct DoneGuard<'a>(&'a AtomicBool);
+impl Drop for DoneGuard<'_> {
+    fn drop(&mut self) {
+        self.0.store(true, SeqCst);
+    }
+}
+
+static C06_ON: AtomicBool = AtomicBool::new(true);
+
+macro_rules! oracle {
+    ($prop:expr, $class:expr, $($t:tt)+) => {
+        if $prop != "C06" || C06_ON.load(SeqCst) {
+            panic!("oracle:{}:{}:{}", $prop, $class, format!($($t)+))
+        }
+    };
+}
+
+fn pool_scenario(history: &[Broadcast], prop: Option<&str>) {
+    // With prop = C07 only the scheduler's terminal-state analysis (deadlock,
+    // leaked worker) decides; the C06 oracles stay silent.
+    let c06 = prop != Some("C07");
+    C06_ON.store(c06, SeqCst);
+    log::reset();
+    live::reset();
+    let pool = Pool::new();
+    let mut max_n = 0usize;
+    let mut shape = String::new();
+
+    for (bi, b) in history.iter().enumerate() {
+        let n = b.n;
+        let cells: Vec<SyncCell<usize>> = (0..=n).map(|_| SyncCell(loom::cell::UnsafeCell::new(0))).collect();
+        let calls: Vec<AtomicUsize> = (0..=n).map(|_| AtomicUsize::new(0)).collect();
+        let threads: Vec<AtomicUsize> = (0..=n).map(|_| AtomicUsize::new(usize::MAX)).collect();
+        let done: Vec<AtomicBool> = (0..=n).map(|_| AtomicBool::new(false)).collect();
+        let alive = Arc::new(AtomicBool::new(true));
+        let guard = AliveGuard(alive.clone());
+        let out_of_range = AtomicUsize::new(usize::MAX);
+
+        let body = |index: usize| -> usize {
+            // Keeps the guard owned by the closure: it dies with the task block.
+            let _own = &guard;
+            if !alive.load(SeqCst) {
+                oracle!("C06", "call-after-return", "broadcast {bi} (n={n}): call for index {index} ran after the task was dropped");
+            }
+            if index > n {
+                out_of_range.store(index, SeqCst);
+                return 0;
+            }
+            let _done = DoneGuard(&done[index]);
+            calls[index].fetch_add(1, SeqCst);
+            threads[index].store(log::thread_index() as usize, SeqCst);
+            cells[index].0.with_mut(|p| unsafe { *p = 1000 * (bi + 1) + index });
+            if b.panics.contains(&index) {
+                panic!("{}", loopdrv::INJECTED_PANIC);
+            }
+            10 * index + bi
+        };
+
+        let mut results: Vec<Option<usize>> = Vec::new();
+        if b.extend {
+            results.push(Some(424242)); // pre-existing element must be preserved
+            pool.par_extend(&mut results, n, &body);
+        } else {
+            pool.broadcast(n, |i| {
+                body(i);
+            });
+        }
+        // ---- the caller has resumed
+        if out_of_range.load(SeqCst) != usize::MAX {
+            oracle!("C06", "index-range", "broadcast {bi} (n={n}): task called with index {}", out_of_range.load(SeqCst));
+        }
+        let mut seen_threads = HashSet::new();
+        for i in 0..=n {
+            let c = calls[i].load(SeqCst);
+            if c != 1 {
+                oracle!("C06", "call-count", "broadcast {bi} (n={n}): index {i} was called {c} times when broadcast returned");
+            }
+            if !done[i].load(SeqCst) {
+                oracle!("C06", "returned-early", "broadcast {bi} (n={n}): broadcast returned while the call for index {i} was still running");
+            }
+            let t = threads[i].load(SeqCst);
+            if (i == 0) != (t == 0) {
+                oracle!("C06", "thread-placement", "broadcast {bi} (n={n}): index {i} ran on thread {t} (index 0 must run on the caller, others on pool threads)");
+            }
+            if !seen_threads.insert(t) {
+                oracle!("C06", "thread-distinct", "broadcast {bi} (n={n}): two indices ran on thread {t}");
+            }
+            // Reading what the call wrote: loom reports a missing happens-before edge here.
+            let v = cells[i].0.with(|p| unsafe { *p });
+            if v != 1000 * (bi + 1) + i {
+                oracle!("C06", "visibility", "broadcast {bi} (n={n}): caller read {v} from the cell written by index {i}");
+            }
+        }
+        if b.extend {
+            if results.len() != n + 2 || results[0] != Some(424242) {
+                oracle!("C06", "extend-shape", "par_extend {bi} (n={n}): vector is {results:?}");
+            }
+            for i in 0..=n {
+                let want = if b.panics.contains(&i) { None } else { Some(10 * i + bi) };
+                if results[i + 1] != want {
+                    oracle!("C06", "extend-result", "par_extend {bi} (n={n}): slot {i} holds {:?}, expected {want:?} (panicking subset {:?})", results[i + 1], b.panics);
+                }
+            }
+        }
+        max_n = max_n.max(n);
+        let spawned = log::snapshot().iter().filter(|e| e.kind == log::Kind::Spawn).count();
+        if spawned != max_n || pool.aux_thread_count() != max_n {
+            oracle!("C06", "worker-count", "after broadcast {bi} (n={n}): {spawned} workers were spawned and the pool holds {} handles, expected max(n_1..n_j) = {max_n}", pool.aux_thread_count());
+        }
+        shape.push_str(&format!("{:?};", (0..=n).map(|i| threads[i].load(SeqCst)).collect::<Vec<_>>()));
+        drop(guard);
+    }
+    // Dropping the pool must make every worker exit: loom requires all threads
+    // to terminate and reports a deadlock otherwise.
+    drop(pool);
+    let n_events = log::snapshot().len() as u64;
+    TRANSITIONS.fetch_add(n_events + history.iter().map(|b| b.n as u64 * 6 + 4).sum::<u64>(), SeqCst);
+    outcome(hash_of(&shape));
+}
+
+fn loop_scenario(case: &loopdrv::LoopCase, prop: Option<&str>) {
+    live::reset();
+    let out = loopdrv::run_case(case);
+    TRANSITIONS.fetch_add(out.events.len() as u64, SeqCst);
+    if out.panic.as_deref().map_or(false, |m| m.contains(divan_verif_rt::clock::HORIZON_PANIC)) {
+        panic!("machinery: clock horizon exceeded under loom");
+    }
+    let findings = oracle::check_loop(case, &out);
+    for f in findings {
+        if prop.map_or(true, |p| p == f.prop) {
+            oracle!(f.prop, f.class, "{}", f.text);
+        }
+    }
+    let shape: String = out
+        .events
+        .iter()
+        .filter(|e| !matches!(e.kind, log::Kind::BarrierArrive | log::Kind::BarrierLeave))
+        .map(|e| format!("{}{}", e.thread, e.kind as u8))
+        .collect();
+    outcome(hash_of(&shape));
+    let mut s = SAMPLE.lock().unwrap();
+    if s.is_none() {
+        *s = Some(json!({"first_execution_events": out.events.iter().map(|e| format!("t{}:{:?}({})", e.thread, e.kind, e.a)).collect::<Vec<_>>() }));
+    }
+}
+
+/// Cross-thread clause of C10: every thread drives the real profiler with its
+/// own script; afterwards its thread-local tally equals its own script.
+fn tally_scenario(threads: usize, ops: &[Vec<u8>]) {
+    use loopdrv::{apply_op, reference_tally, Op};
+    log::reset();
+    fn decode(code: u8, t: usize) -> Op {
+        let z = 8 + 100 * t as u64;
+        match code {
+            0 => Op::Alloc(z),
+            1 => Op::Dealloc(z / 2),
+            2 => Op::Realloc(z, 3 * z),
+            3 => Op::Realloc(z, 1),
+            _ => Op::AllocZeroed(z + 1),
+        }
+    }
+    let results: Arc<Mutex<Vec<Option<divan::verif::TallyMirror>>>> = Arc::new(Mutex::new(vec![None; threads]));
+    let make_work = |t: usize| {
+        let script: Vec<Op> = ops[t].iter().map(|&c| decode(c, t)).collect();
+        let results = results.clone();
+        move || {
+            divan::verif::tally_clear();
+            for op in &script {
+                apply_op(*op);
+                loom::thread::yield_now();
+            }
+            let got = divan::verif::tally_get();
+            results.lock().unwrap()[t] = got;
+        }
+    };
+    let handles: Vec<_> = (1..threads).map(|t| loom::thread::spawn(make_work(t))).collect();
+    make_work(0)();
+    for h in handles {
+        h.join().unwrap();
+    }
+    let got = results.lock().unwrap().clone();
+    for t in 0..threads {
+        let want = reference_tally(ops[t].iter().map(|&c| decode(c, t)));
+        if got[t] != Some(want) {
+            oracle!("C10", "cross-thread", "thread {t} performed {:?} but its tally reads {:?} (expected {want:?})", ops[t], got[t]);
+        }
+    }
+    TRANSITIONS.fetch_add(ops.iter().map(|o| o.len() as u64 + 2).sum(), SeqCst);
+    outcome(0);
+}
+
+mod shimtest;
+
+fn main() {
+    let mut scenario = None;
+    let mut side = None;
+    let mut args = std::env::args().skip(1);
+    while let Some(a) = args.next() {
+        match a.as_str() {
+            "--scenario" => scenario = args.next(),
+            "--side" => side = args.next(),
+            _ => {}
+        }
+    }
+    let scenario_text = scenario.expect("--scenario <json>");
+    let scenario: Scenario = serde_json::from_str(&scenario_text).expect("scenario json");
+    let side = side.unwrap_or_else(|| "/dev/null".to_owned());
+
+    // Record the first unexpected panic message; expected ones (injected panic
+    // points and their translation by divan) are ignored.
+    let first = Arc::new(AtomicBool::new(false));
+    {
+        let side = side.clone();
+        let first = first.clone();
+        std::panic::set_hook(Box::new(move |info| {
+            let msg = if let Some(s) = info.payload().downcast_ref::<&str>() {
+                (*s).to_owned()
+            } else if let Some(s) = info.payload().downcast_ref::<String>() {
+                s.clone()
+            } else {
+                "<non-string panic>".to_owned()
+            };
+            if msg.contains(loopdrv::INJECTED_PANIC) || msg.starts_with("Divan benchmarking thread") || log::in_quiet_section() {
+                return;
+            }
+            if !first.swap(true, SeqCst) {
+                let loc = info.location().map(|l| format!(" @{}:{}", l.file(), l.line())).unwrap_or_default();
+                let _ = std::fs::write(&side, format!("{msg}{loc}\niteration={}\n", ITERATIONS.load(SeqCst)));
+            }
+        }));
+    }
+
+    let pb = match &scenario {
+        Scenario::Pool { pb, .. } | Scenario::Loop { pb, .. } | Scenario::Tally { pb, .. } | Scenario::Shim { pb, .. } => *pb,
+    };
+    let mut builder = loom::model::Builder::new();
+    builder.preemption_bound = pb;
+    builder.max_branches = 100_000;
+    builder.max_permutations = None;
+    builder.max_duration = None;
+    builder.checkpoint_file = None;
+    builder.log = false;
+    builder.location = false;
+
+    let start = std::time::Instant::now();
+    let sc = scenario.clone();
+    builder.check(move || {
+        ITERATIONS.fetch_add(1, SeqCst);
+        match &sc {
+            Scenario::Pool { history, prop, .. } => pool_scenario(history, prop.as_deref()),
+            Scenario::Loop { case, prop, .. } => loop_scenario(case, prop.as_deref()),
+            Scenario::Tally { threads, ops, .. } => tally_scenario(*threads, ops),
+            Scenario::Shim { script, .. } => shimtest::run(script),
+        }
+    });
+
+    let outcomes = OUTCOMES.lock().unwrap().as_ref().map_or(0, |s| s.len());
+    let extra = shimtest::summary();
+    println!(
+        "RESULT {}",
+        json!({
+            "iterations": ITERATIONS.load(SeqCst),
+            "transitions": TRANSITIONS.load(SeqCst),
+            "distinct_outcomes": outcomes,
+            "preemption_bound": pb,
+            "sample": SAMPLE.lock().unwrap().clone(),
+            "shim": extra,
+            "wall_s": start.elapsed().as_secs_f64(),
+        })
+    );
+}
